@@ -213,7 +213,7 @@ func mergeRootObjects(aTypes, bTypes map[string]*ast.Definition, a, b *ast.Defin
 		}
 
 		// several services may declare the Relay node entry point: keep a single one
-		if isNodeField(f) && fields.ForName(f.Name) != nil {
+		if rf := fields.ForName(f.Name); isNodeField(f) && rf != nil && isNodeField(rf) {
 			continue
 		}
 
